@@ -29,7 +29,7 @@ Proof.
   destruct (is_oracle_tx (tx_msgs tx)) eqn:Eo; simpl in Ha.
   - destruct (oracle_tx_leaves _ Eo _ Hx) as (m' & Heq & _). discriminate.
   - destruct (is_settlement_tx (tx_msgs tx)) eqn:Es; simpl in Ha.
-    + unfold settlus_admits in Ha. rewrite Eo in Ha.
+    + unfold settlus_admits in Ha. apply andb_true_iff in Ha as [_ Ha]. rewrite Eo in Ha.
       destruct (settlement_tx_leaves _ Es _ Hx) as (m' & _ & Hin). auto.
     + pose proof (cosmos_no_restricted h tx Ha _ Hx) as Hr. unfold restricted in Hr. simpl in Hr. discriminate.
 Qed.
@@ -60,17 +60,17 @@ Qed.
    settlement message are executed inside an authz exec, in a transaction charged like any Cosmos one *)
 Example C04_old_list_refuted :
   let o := mkO (mkOP 1 0 0 2 1 false) None [] [] [] [] [] [] [] in
-  let tx1 := mkTx [TExec 7 [TLeaf (LCreateValidator 7)]] 7 [7] false in
-  let tx2 := mkTx [TExec 7 [TLeaf (LSettle (MCancel 7 1 [114]))]] 7 [7] false in
+  let tx1 := mkTx [TExec 7 [TLeaf (LCreateValidator 7)]] 7 [7] false true in
+  let tx2 := mkTx [TExec 7 [TLeaf (LSettle (MCancel 7 1 [114]))]] 7 [7] false true in
   admits_old o 5 tx1 = true /\ admits_old o 5 tx2 = true /\
   admits o 5 tx1 = false /\ admits o 5 tx2 = false.
 Proof. vm_compute. repeat split; reflexivity. Qed.
 
 Example C04_nonvacuous :
   let o := mkO (mkOP 1 0 0 2 1 false) None [] [] [] [] [] [] [] in
-  admits o 5 (mkTx [TLeaf (LSend 7); TExec 7 [TLeaf (LSend 7); TExec 7 [TLeaf (LOther 7)]]] 7 [7] false) = true /\
-  admits o 5 (mkTx [TLeaf (LSettle (MCancel 7 1 [114])); TLeaf (LSettle (MDeposit 7 1 [117] 5))] 7 [7] true) = true /\
-  admits o 5 (mkTx [TLeaf (LSettle (MCancel 7 1 [114])); TLeaf (LSend 7)] 7 [7] true) = false.
+  admits o 5 (mkTx [TLeaf (LSend 7); TExec 7 [TLeaf (LSend 7); TExec 7 [TLeaf (LOther 7)]]] 7 [7] false true) = true /\
+  admits o 5 (mkTx [TLeaf (LSettle (MCancel 7 1 [114])); TLeaf (LSettle (MDeposit 7 1 [117] 5))] 7 [7] true true) = true /\
+  admits o 5 (mkTx [TLeaf (LSettle (MCancel 7 1 [114])); TLeaf (LSend 7)] 7 [7] true true) = false.
 Proof. vm_compute. repeat split; reflexivity. Qed.
 
 Print Assumptions C04_no_validator_creation.
